@@ -23,7 +23,7 @@ ASSUMPTIONS = ['margin: lambda_min(after - before) >= -1e-9 x |D| (observed >= -
                'lowering an omega0 transition state leaves every omega1/omega2 transition-state value as given (they are '
                'independent inputs of Lij)']
 REQUIRED_OBS = {'eval:C05:interstitial': 60, 'eval:C05:L0vv': 30, 'eval:C05:Lss': 80, 'lowered_om0': 10, 'lowered_om1': 20,
-                'lowered_om2': 10, 'large_om2_branch_cases': 3}
+                'lowered_om2': 10, 'large_om2_branch_cases': 3, 'default_algorithm_with_site_contrast': 2, 'variant_default_inputs': 8}
 CASE_TIMEOUT = 900
 QUICK = [('fcc', 1), ('bcc', 1), ('hcp', 1), ('square', 1), ('honey', 1), ('omega', 1), ('tria', 1), ('lieb', 1),
          ('dtria', 1), ('diamond', 1), ('fcc', 2), ('sc', 1), ('tric', 1), ('p2', 1), ('mono2', 1)]
@@ -33,7 +33,7 @@ THOROUGH = QUICK + [('rumpled', 1), ('b2', 1), ('kagome', 1), ('l12', 1), ('tet'
 
 def cases(tier, seed):
     pool = QUICK if tier == 'quick' else THOROUGH
-    out = [{'kind': 'vac', 'seed': seed, 'idx': ci * 10 + rep, 'name': n, 'Nthermo': t, 'ninputs': 2 if tier == 'quick' else 5,
+    out = [{'kind': 'vac', 'seed': seed, 'idx': ci * 10 + rep, 'name': n, 'Nthermo': t, 'ninputs': 3 if tier == 'quick' else 6,
             'hashseed': (ci + rep) % 3} for ci, (n, t) in enumerate(pool) for rep in range(1 if tier == 'quick' else 3)]
     out += [{'kind': 'inter', 'seed': seed, 'idx': 1000 + i, 'hashseed': i % 3} for i in range(16 if tier == 'quick' else 200)]
     return out
@@ -80,7 +80,12 @@ def run_vac(case, mon):
     for k in range(case['ninputs']):
         sigma = float(rng.choice([0.3, 0.7, 1.5]))
         args = work_vac.rand_args(rng, diff, 'VSB012', sigma)
-        variant = ('default', 'small', 'large', 'bigom2', 'bigom2-one')[int(rng.integers(5))] if k > 1 else ('bigom2', 'bigom2-one')[k]
+        variant = ('default', 'small', 'large', 'bigom2', 'bigom2-one')[int(rng.integers(5))] if k > 2 else ('bigom2', 'bigom2-one', 'default')[k]
+        if k == 2 and len(diff.sitelist) > 1:
+            # default algorithm with a pronounced site-energy contrast between the Wyckoff sets (solute and vacancy)
+            args[1] = args[1] + rng.permutation(len(args[1])) * float(rng.uniform(0.8, 2.0))
+            args[1] = args[1] - args[1].min()
+            mon.count('default_algorithm_with_site_contrast')
         kw = {}
         if variant == 'small': kw = {'large_om2': np.inf}
         if variant == 'large': kw = {'large_om2': 0.}
@@ -91,6 +96,7 @@ def run_vac(case, mon):
         desc = {'crystal': name, 'Nthermo': nth, 'variant': variant, 'args': args}
         if sample is None: sample = desc
         mon.count('large_om2_branch_cases', variant in ('large', 'bigom2', 'bigom2-one'))
+        mon.count('variant_default_inputs', variant == 'default')
         try:
             with lij_probe(diff) as probe:
                 base = [np.array(x) for x in diff.Lij(*args, **kw)]
@@ -101,7 +107,7 @@ def run_vac(case, mon):
             continue
         for grp, nm in ((3, 'om0'), (4, 'om1'), (5, 'om2')):
             ncls = len(args[grp])
-            order = rng.permutation(ncls)[:6]
+            order = rng.permutation(ncls)[:(4 if k == 2 else 6)]
             for J in order:
                 a2 = [x.copy() for x in args]
                 delta = float(rng.uniform(0.05, 3))
